@@ -320,6 +320,15 @@ ENCODING_SEEDS = [
     "\\s", "\\S", "\\w", "\\W", "\\d", "\\D", "[\\s]", "[\\w]", "[\\d]", "[\\D]", "\\", "[\\", "\\q", "[\\q]", "\\|", "\\-", "[\\-]", "\\#", "\\{", "\\}",
     "a{²}", "a{٣}", "a{1,٣}", "a{ 1 }", "a{1 ,2}", "a{\t1}", "a{1, 2}", "a{01}", "a{007,010}", "a{,}", "a{}", "a{,3}", "a{3,}", "a{3,}?", "a{2,1}", "a{1,1}", "a{0,1}", "a{0}", "a{0,0}?",
     "a{4294967295}", "a{99999999999999999999}",
+] + [
+    # every {m,n} / {m,} / {,n} / {m} bound combination over small and boundary values, greedy and non-greedy, on a char and on a group
+    f"{t}{{{m},{n}}}{q}" for t in ("a", "(ab)") for m in ("", "0", "1", "2", "5") for n in ("", "0", "1", "2", "5") for q in ("", "?")
+] + [f"a{{{m}}}{q}" for m in ("0", "1", "2", "10") for q in ("", "?")] + [
+    # escapes of every ASCII punctuation character, outside and inside a set (parser and renderer tables must agree)
+    f"\\{chr(c)}" for c in range(33, 127) if not chr(c).isalnum()
+] + [f"[\\{chr(c)}]" for c in range(33, 127) if not chr(c).isalnum()] + [
+    # the escape-width thresholds of the renderer
+    "\\xfe", "\\xff", "\\u0100", "\\ufffe", "\\uffff", "\\U00010000", "[\\ufffe-\\uffff]", "[^\\uffff]", "\uffff", "\ufffe", "[\ufffe-\uffff]",
 ]
 
 FV_SEEDS: List[Parts] = [
